@@ -46,6 +46,8 @@ def run_algebra(case):
         return tr
     try:
         qd = JointExcessfromJDD.convert_list_qks_to_dict(qks, names)
+        if case.get("dict_order") == "reversed":      # the dictionary need not be filled in the order of the name list
+            qd = {nm: qd[nm] for nm in reversed(names)}
         back = JointDegreeFromExcess.get_joint_degree_distribution(qd, names)
         Wnz = sum(w for k, w in P.items() if w > 0 and any(k))
         tr["inv"] = _drows(back, Wnz)
@@ -82,7 +84,10 @@ def run_network(case):
     tops = case["tops"]
     tr = {"kind": "network", "case": case, "rowsums": [[] for _ in tops], "excess": [[] for _ in tops], "raised": ""}
     try:
-        M = gcmpy.JointExcessJointDegree({TN.NETWORK: G, TN.EDGE_NAMES: tops}).get_ejks()
+        extractor = gcmpy.JointExcessJointDegree({TN.NETWORK: G, TN.EDGE_NAMES: tops})
+        for _ in range(case.get("extractions_before", 0)):      # history: the extractor was already asked before
+            extractor.get_ejks()
+        M = extractor.get_ejks()
         q = JointExcessFromEjk.get_excess_joint_distributions(M)
         jdd = gcmpy.JointDegreeDistributionFromNetwork.get_joint_degree_distribution(G)
         qj = JointExcessfromJDD.get_joint_excess_distributions(jdd)
@@ -117,7 +122,8 @@ def cases(chk):
                     if not thorough and rng.random() < 0.75:
                         continue
                     for names in NAMELISTS[T]:
-                        cs.append({"kind": "algebra", "P": [[list(k), w] for k, w in zip(keys, wts)], "names": names})
+                        cs.append({"kind": "algebra", "P": [[list(k), w] for k, w in zip(keys, wts)], "names": names,
+                                   "dict_order": "reversed" if len(cs) % 2 else "names"})
     for i in range(300 if thorough else 60):       # arbitrary symmetric or asymmetric integer matrices
         T = rng.choice([1, 2, 3])
         names = rng.choice(NAMELISTS[T])
@@ -135,7 +141,7 @@ def cases(chk):
         sizes = rng.choice([[2], [2, 3], [2, 3, 4], [3]])
         es, jd, tops = R.clean_network(rng, rng.choice([6, 10, 20, 40]), sizes, rng.choice([0.6, 1.0, 1.4]))
         if es:
-            cs.append({"kind": "network", "edges": es, "jd": jd, "tops": tops})
+            cs.append({"kind": "network", "edges": es, "jd": jd, "tops": tops, "extractions_before": i % 3})
     return cs
 
 
